@@ -49,8 +49,33 @@ def coq_makefile():
             raise CheckError("coq_makefile failed:\n" + out)
 
 
+def ensure_generated(force=False):
+    """Generated/*.v are rewritten from the compiled crate (T-exh tables).  Only replaced when the
+    content differs, so that an unchanged table does not trigger a rebuild."""
+    gdir = os.path.join(COQ, "theories", "Generated")
+    os.makedirs(gdir, exist_ok=True)
+    target = os.path.join(gdir, "ObservedSendable.v")
+    if os.path.exists(target) and not force:
+        return
+    if not os.path.exists(HARNESS_BIN):
+        ok, out = build_harness()
+        if not ok:
+            raise CheckError("harness build failed against /repo:\n" + out[-3000:])
+    tmp = os.path.join(RUN, "gen_tmp")
+    os.makedirs(tmp, exist_ok=True)
+    harness(["tables", "--dir", tmp])
+    for f in os.listdir(tmp):
+        new = open(os.path.join(tmp, f)).read()
+        dst = os.path.join(gdir, f)
+        if not os.path.exists(dst) or open(dst).read() != new:
+            with open(dst, "w") as fh:
+                fh.write(new)
+        os.remove(os.path.join(tmp, f))
+
+
 def coq_make(targets=None, timeout=2400):
     """Full .vo build (never -vos).  Returns (ok, output)."""
+    ensure_generated()
     coq_makefile()
     t = " ".join(targets) if targets else ""
     rc, out = sh("timeout %d make -j16 %s" % (timeout, t), cwd=COQ, timeout=timeout + 60)
